@@ -166,6 +166,10 @@ def loop_scenarios(tier, panics=True):
         for site in range(5):
             for thread in (0, 1):
                 out.append(_loop(loop_case(4, 3, 3, 2, 1, 1, panic={"site": site, "thread": thread, "nth": 0})))
+        # a panic in the second round (state carried between rounds: reused result vector, barrier of the new round)
+        for site in (0, 2, 4):
+            for thread in (0, 1):
+                out.append(_loop(loop_case(4, 3, 3, 2, 3, 1, panic={"site": site, "thread": thread, "nth": 1}), pb=2))
     if tier == "thorough":
         out.append(_loop(loop_case(0, 0, 0, 3, 1, 1), pb=2))
         out.append(_loop(loop_case(2, 3, 3, 2, 3, 1), pb=3))
@@ -510,3 +514,10 @@ PROPS["C10"]["quick"].append({"engine": "Z", "prop": "C10"})
 PROPS["C10"]["thorough"].append({"engine": "Z", "prop": "C10"})
 META["C10"]["engine"] = "S+L+Z"
 PROPS["C10"]["assumptions"].append("engine Z: the same exact-allocation benchmarks through the real System allocator wrapper on 1 and 2 real threads (per-thread tallies must not mix)")
+
+
+# C08 panic clause at function level for T = 1 and every round (the run must end with a panic on the caller)
+PROPS["C08"]["quick"].append({"engine": "S", "bin": "loopmc", "args": ["--prop", "C08"], "parts": 4})
+PROPS["C08"]["thorough"].append({"engine": "S", "bin": "loopmc", "args": ["--prop", "C08"], "parts": 8})
+META["C08"]["engine"] = "L+S+Z"
+PROPS["C08"]["assumptions"].append("engine S re-uses the C01 enumeration (T = 1, panic at the first / second / last execution of every site) for the clause that a panic ends the run with a panic on the calling thread; loom scenarios add panics in the second round for T = 2")
